@@ -34,8 +34,9 @@ class StepAiou : public aiounicast {
 public:
 	Net *net;
 	long want;
+	uint64_t consumed;
 	StepAiou(size_t n_in, size_t j_in, Net *net_in)
-		: aiounicast(n_in, j_in, aio_scheduler_roundrobin, aio_timeout_very_short, false, false, false), net(net_in), want(-1) {}
+		: aiounicast(n_in, j_in, aio_scheduler_roundrobin, aio_timeout_very_short, false, false, false), net(net_in), want(-1), consumed(0) {}
 	bool Send(mpz_srcptr m, const size_t i_in, const time_t timeout = aio_timeout_default) override { return false; }
 	bool Send(const std::vector<mpz_srcptr> &m, const size_t i_in, const time_t timeout = aio_timeout_default) override
 	{
@@ -57,6 +58,7 @@ public:
 		net->q[want][j].pop_front();
 		i_out = want;
 		want = -1;
+		consumed++;
 		return true;
 	}
 	void Reset(const size_t i_in, const bool input) override {}
@@ -335,7 +337,7 @@ struct World {
 				int p = e.a, i = e.b, l = e.c;
 				if (!cfg.honest[p]) return false;
 				if (l < cfg.n && net.q[l][p].empty()) return false;
-				size_t before = (l < cfg.n) ? net.q[l][p].size() : 0;
+				uint64_t before = aiou[p]->consumed;
 				mpz_t m;
 				mpz_init(m);
 				aiou[p]->want = (l < cfg.n) ? l : -1;
@@ -349,7 +351,7 @@ struct World {
 				aiou[p]->want = -1;
 				if (got) on_delivery(p, (size_t)i, m);
 				mpz_clear(m);
-				if (!got && l < cfg.n && before == net.q[l][p].size())
+				if (!got && l < cfg.n && before == aiou[p]->consumed)
 				{
 					// DeliverFrom neither took the offered message nor returned a value: nothing changed, so every later
 					// call behaves the same and the messages on this party's links can never be handed over
@@ -516,7 +518,7 @@ struct World {
 		for (size_t i = 0; i < v.size(); i++) { for (RBC_TagCheck::const_iterator k = v[i].begin(); k != v[i].end(); ++k) o += k->first + ","; o += "|"; }
 		o += ";";
 	}
-	std::string canon(bool with_log = true) const
+	std::string canon(bool with_log = true, bool with_rank = true) const
 	{
 		std::string o;
 		for (int p = 0; p < cfg.n; p++)
@@ -562,7 +564,7 @@ struct World {
 				{
 					const NMsg &x = net.q[a][b][i];
 					size_t rank = std::lower_bound(seqs.begin(), seqs.end(), x.seq) - seqs.begin();
-					o += drv::str(rank) + "@" + x.f[0] + "." + x.f[1] + "." + x.f[2] + "." + x.f[3] + "." + x.f[4] + ",";
+					o += (with_rank ? drv::str(rank) : std::string("")) + "@" + x.f[0] + "." + x.f[1] + "." + x.f[2] + "." + x.f[3] + "." + x.f[4] + ",";
 				}
 				o += "\n";
 			}
